@@ -116,6 +116,11 @@ func c10Run(e *core.Env) {
 			}
 		}
 	}
+	// exponent ranges narrower than the precision: an integer quotient of up to Precision digits has an
+	// adjusted exponent above MaxExponent (or, with a positive MinExponent, below it) and is still returned exactly
+	for _, m := range []apd.Rounder{apd.RoundHalfEven, apd.RoundUp} {
+		ctxs = append(ctxs, MkCtx(9, -3, 3, m, 0), MkCtx(5, 0, 2, m, 0), MkCtx(9, 2, 20, m, 0), MkCtx(3, 1, 1, m, 0))
+	}
 	do := func(x, y Operand, cc CtxCase) {
 		cls, triv, msg := c10One(x, y, cc)
 		e.Trans(2)
@@ -183,9 +188,9 @@ func init() {
 		Rule:  "every (x, y, context) point runs QuoInteger and Rem on the real code and compares both with q*=trunc(x/y), r*=x-q*y computed in exact integers on a common exponent (DivisionImpossible iff digits(q*)>Precision; Rem = r* rounded once with the sign of x; identical under all eight modes whenever r* fits); non-trivial = non-zero remainder, impossible division or system limit",
 		Bounds: func(tier string) string {
 			if tier == "thorough" {
-				return "x in DENSE(3,5)+EDGE, y in selected DENSE(3,4)+EDGE, contexts p in {1,2,3,4,5,9} x 11 ranges x 3 modes; LIMIT x (LIMIT + 4 small) in both orders at p in {3,9}"
+				return "x in DENSE(3,5)+EDGE, y in selected DENSE(3,4)+EDGE, contexts p in {1,2,3,4,5,9} x 11 ranges x 3 modes + 4 ranges narrower than the precision (Emax < p-1, Emin > 0) x 2 modes; LIMIT x (LIMIT + 4 small) in both orders at p in {3,9}"
 			}
-			return "x in 69 selected coefficients x exp[-4,4] x sign + EDGE, y in 21 coefficients x exp[-3,3] x sign + EDGE, contexts p in {1,2,3,9} x 4 ranges x 4 modes (half_even, up, floor, ceiling) + p in {20,38} x 2 modes; LIMIT x (LIMIT + 4 small) in both orders at p in {3,9}"
+			return "x in 69 selected coefficients x exp[-4,4] x sign + EDGE, y in 21 coefficients x exp[-3,3] x sign + EDGE, contexts p in {1,2,3,9} x 4 ranges x 4 modes (half_even, up, floor, ceiling) + p in {20,38} x 2 modes + 4 ranges narrower than the precision (Emax < p-1, Emin > 0) x 2 modes; LIMIT x (LIMIT + 4 small) in both orders at p in {3,9}"
 		},
 		Run:    c10Run,
 		Replay: c10Replay,
